@@ -55,6 +55,11 @@ class T1(fdl.Tag):
   """t1"""
 
 
+def fva(a=5, *args, k=0):
+  """A positional-or-keyword parameter in front of *args: *args values are stored under indices that start at 1."""
+  return ('fva', a, args, k)
+
+
 def _conc(v, lo, hi):
   for c in range(lo, hi + 1):
     if v == c:
@@ -110,6 +115,14 @@ def _member(shape, li, w, tag, two_tags):
   elif shape == 4:
     inner = fdl.Config(fam.g2, x=n0, y=fdl.Config(fam.g3, x=n0))
     root = fdl.Config(fam.g1, x=inner, y=[inner, fdl.Config(fam.A, x=leaf, y={1: leaf, 'k': (leaf,)})])
+  elif shape == 6:
+    # positional-only, positional-or-keyword before *args, *args values (int-keyed arguments)
+    inner = fdl.Config(fam.fp, n0, 2, 3, leaf, [n0]) if w % 2 else fdl.Config(fam.fp, None, leaf)
+    part = fdl.Partial(fam.fp, 1, 2, 3, n0) if w % 3 else fdl.Partial(fam.fp, leaf)
+    va = fdl.Config(fva, 1, leaf, n0)
+    if w >= 3:
+      del va.a                           # the parameter in front of *args left at its default
+    root = fdl.Config(fam.g1, x=inner, y=part, z=[va])
   else:
     root = fdl.Config(fam.A, x=fdl.Config(fam.B, x=fdl.Config(fam.C, x=leaf, y=n0), y=n0), y=fam.g0, z=fdl.Partial(fam.B))
   if tag:
@@ -125,10 +138,10 @@ def c12_roundtrip(gen: int, shape: int, li: int, w: int, cx: int, hist: bool, ta
   gen 0: new_codegen, 1: auto_config_codegen; cx: max_expression_complexity (-1 = None); sub: 0 no sub-fixture, 1 the
   designated inner node as a sub-fixture, 2 the middle node (shapes 4 / 5).  The generator raises, or the emitted text
   compiles, runs and yields a configuration canonically equal to the input.
-  require: 0 <= gen <= 1 and 0 <= shape <= 5 and 0 <= li < 40 and 0 <= w <= 5 and -1 <= cx <= 3 and 0 <= sub <= 4
+  require: 0 <= gen <= 1 and 0 <= shape <= 6 and 0 <= li < 40 and 0 <= w <= 5 and -1 <= cx <= 3 and 0 <= sub <= 4
   """
   import crosshair
-  gen, shape, li, w, cx, sub = _conc(gen, 0, 1), _conc(shape, 0, 5), _conc(li, 0, NLEAF - 1), _conc(w, 0, 5), _conc(cx, -1, 3), _conc(sub, 0, 4)
+  gen, shape, li, w, cx, sub = _conc(gen, 0, 1), _conc(shape, 0, 6), _conc(li, 0, NLEAF - 1), _conc(w, 0, 5), _conc(cx, -1, 3), _conc(sub, 0, 4)
   hist, tag, two = bool(hist), bool(tag), bool(two)
   with crosshair.NoTracing():
     root, n0 = _member(shape, li, w, tag, two)
@@ -232,7 +245,7 @@ def c12_value_expr(li: int, nest: int) -> bool:
 def obligations(tier, seed):
   cubes = []
   for gen in range(2):
-    for shape in range(6):
+    for shape in range(7):
       for cx in range(-1, 4):
         if tier == 'quick':
           j = gen + shape + cx
@@ -248,7 +261,7 @@ def obligations(tier, seed):
   smoke = dict(gen=0, shape=1, li=0, w=1, cx=-1, hist=False, tag=False, two=False, sub=0)
   return [
       Obligation('c12_roundtrip', c12_roundtrip, cubes, timeout=t, path_timeout=120, enumerated=True, smoke=smoke,
-                 extra_smokes=[dict(smoke, gen=k % 2, shape=k % 6, li=k, w=k % 6, cx=k % 5 - 1, hist=bool(k % 2), sub=k % 5)
+                 extra_smokes=[dict(smoke, gen=k % 2, shape=k % 7, li=k, w=k % 6, cx=k % 5 - 1, hist=bool(k % 2), sub=k % 4)
                                for k in range(0, NLEAF, 3)]),
       Obligation('c12_value_expr', c12_value_expr, vcubes, timeout=t, path_timeout=120, enumerated=True,
                  smoke=dict(li=3, nest=1)),
